@@ -115,6 +115,15 @@ PYTHON_AST_OPERATORS = {
     'MatMult': operator.matmul,
 }
 
+# the operators which make a reference of two references, A1:INDEX(..) and
+# A1:B2 B1:C3, are the ** and & of the addresses
+REFERENCE_OPERATORS = {
+    'Pow': 'Union',
+    'BitAnd': 'Intersection',
+}
+PYTHON_AST_OPERATORS['Union'] = operator.pow
+PYTHON_AST_OPERATORS['Intersection'] = operator.and_
+
 COMPARISION_OPS = frozenset(('Eq', 'Lt', 'Gt', 'LtE', 'GtE', 'NotEq'))
 
 
@@ -1269,7 +1278,22 @@ class ExcelCmp(collections.namedtuple('ExcelCmp', 'cmp_type value empty')):
         return not self == other
 
 
-def build_operator_operand_fixup(capture_error_state):
+def build_operator_operand_fixup(capture_error_state, name_space=None):
+    """Build the function which evaluates an operator
+
+    :param capture_error_state: called with what went wrong
+    :param name_space: where `_C_` and `_R_`, which read the cells an operand
+        refers to, are found
+    """
+    name_space = name_space or {}
+
+    def referenced_value(operand):
+        """an operator works on the value of the cells OFFSET() et al refer to"""
+        if is_address(operand):
+            reader = name_space.get('_R_' if operand.is_range else '_C_')
+            if reader:
+                return reader(operand.address)
+        return operand
 
     def array_fixup(left_op, op, right_op):
         """use numpy broadcasting for ranges"""
@@ -1307,7 +1331,12 @@ def build_operator_operand_fixup(capture_error_state):
             Case-insensitive string compare
             String to Number coercion
             String / Number multiplication
+            References to cells
         """
+        if op not in REFERENCE_OPERATORS.values():
+            left_op = referenced_value(left_op)
+            right_op = referenced_value(right_op)
+
         if list_like(left_op) or list_like(right_op):
             return array_fixup(left_op, op, right_op)
 
